@@ -35,6 +35,14 @@ func (d *Document) PrintDescription(description Description, indent []byte, dept
 
 	content := d.Input.ByteSlice(description.Content)
 
+	if !description.IsBlockString {
+		// indentation is only insignificant in a block string: the content of a quoted string
+		// is written as it is
+		_, err = writer.Write(content)
+		_, err = writer.Write(literal.QUOTE)
+		return nil
+	}
+
 	// The lexer preserves the source-level indentation on every line after the
 	// first, so before re-emitting we strip the common indent of lines 1+
 	// (per the BlockStringValue() canonicalization in the GraphQL spec). The
